@@ -60,6 +60,8 @@ class Plan:
         self.fired = 0
         self.probes = []
         self.staged = []
+        self.dirty = {}      # inode -> written since its last successful fsync
+        self.unsynced = []   # destinations whose staged file was renamed into place with unsynced data
 
     def hit(self, name):
         """Called at every intercepted I/O step.  Returns 'short' for a short write; raises for faults."""
@@ -90,6 +92,10 @@ class FileProxy:
 
     def write(self, data):
         r = self._p.hit("write")
+        try:
+            self._p.dirty[os.fstat(self._f.fileno()).st_ino] = True
+        except Exception:
+            pass
         if r == "short":
             k = max(0, len(data) // 2)
             self._f.write(data[:k])
@@ -120,7 +126,12 @@ class OsProxy:
 
     def fsync(self, fd):
         self._p.hit("fsync")
-        return os.fsync(fd)
+        r = os.fsync(fd)
+        try:
+            self._p.dirty[os.fstat(fd).st_ino] = False
+        except Exception:
+            pass
+        return r
 
     def chmod(self, *a, **k):
         self._p.hit("chmod")
@@ -136,6 +147,13 @@ class OsProxy:
                 self._p.staged.append((os.path.basename(str(b)), sha(f_.read())))
         except OSError:
             self._p.staged.append((os.path.basename(str(b)), None))
+        # ... and what a machine that loses power right after the rename keeps: only what was fsynced.  The staged file must
+        # not carry data written after its last fsync (the documented order: write, fsync, replace)
+        try:
+            if self._p.dirty.get(os.stat(a).st_ino):
+                self._p.unsynced.append(os.path.basename(str(b)))
+        except OSError:
+            pass
         self._p.hit("replace")
         return os.replace(a, b)
 
@@ -312,6 +330,9 @@ def inproc_case(caller, size, old, at, kind, err, times, ref, sess: Session, ste
                 if dsha != ref["new"].get(dname):
                     sess.violation("staged-file-incomplete-at-the-rename", case, {"dest": dname, "staged_sha": dsha, "outcome": outcome})
                     break
+        sess.count("renames_checked_for_fsync_before_rename", len(plan.staged))
+        if plan.unsynced:
+            sess.violation("staged-file-renamed-before-its-data-was-fsynced", case, {"dest": plan.unsynced[:3], "io_steps": plan.steps[:14], "outcome": outcome})
         dests = DESTS[caller]
         for i, name in enumerate(dests):
             got = after.get(name)
@@ -623,7 +644,7 @@ def _work(args):
 
 def main(tier: str, seed: int):
     sess = Session(PID, tier, seed, level="fault_enumeration", rule=RULE)
-    sess.assume("crash points are I/O call boundaries (Python-level calls in clematis.io.atomic, and system calls under strace); loss of an fsynced rename by the file system / power loss is not observable")
+    sess.assume("crash points are I/O call boundaries (Python-level calls in clematis.io.atomic, and system calls under strace); the loss of data by a power failure is not observable, its precondition is: a staged file renamed into place while it carries writes younger than its last fsync")
     sess.assume("the sidecar of a snapshot is best-effort by design: a normally returning write_snapshot must leave the new body; the sidecar may be old or new")
     q = tier == "quick"
     jobs = []
